@@ -29,6 +29,15 @@
 #ifndef VERIF_INV_CRC32_BODY_TAIL
 #define VERIF_INV_CRC32_BODY_TAIL
 #endif
+#ifndef VERIF_INV_INITIALIZE_GROUPS
+#define VERIF_INV_INITIALIZE_GROUPS
+#endif
+#ifndef VERIF_INV_ALLOCATE_GROUP_TABLE_ITABLE
+#define VERIF_INV_ALLOCATE_GROUP_TABLE_ITABLE
+#endif
+#ifndef VERIF_INV_CHECK_BACKUP_SUPER_BLOCK
+#define VERIF_INV_CHECK_BACKUP_SUPER_BLOCK
+#endif
 #ifndef VERIF_INV_PASS2_CHECK_NAME
 #define VERIF_INV_PASS2_CHECK_NAME
 #endif
